@@ -85,11 +85,13 @@ func (x *XmlNode) Next(r node.ListRequest) (node.Node, []val.Value, error) {
 	if r.Key != nil {
 		for _, n := range x.Nodes {
 			for i, k := range r.Key {
-				v, found := n.field(r.Meta.KeyMeta()[i])
-				if !found {
+				kmeta := r.Meta.KeyMeta()[i]
+				ndx := n.Find(0, kmeta)
+				if ndx < 0 {
 					break
 				}
-				if k.String() != v {
+				v, err := xmlLeafValue(kmeta.Type(), string(n.Nodes[ndx].Content), n.Nodes[ndx].ContentTrim())
+				if err != nil || v == nil || k.String() != v.String() {
 					break
 				}
 				isLastKey := i == (len(r.Key) - 1)
@@ -105,11 +107,11 @@ func (x *XmlNode) Next(r node.ListRequest) (node.Node, []val.Value, error) {
 		var key []val.Value
 		if len(r.Meta.KeyMeta()) > 0 {
 			for _, kmeta := range r.Meta.KeyMeta() {
-				sval, valid := target.field(kmeta)
-				if !valid {
+				ndx := target.Find(0, kmeta)
+				if ndx < 0 {
 					return nil, nil, fmt.Errorf("key '%s' missing from %s", kmeta.Ident(), r.Path)
 				}
-				v, err := node.NewValue(kmeta.Type(), sval)
+				v, err := xmlLeafValue(kmeta.Type(), string(target.Nodes[ndx].Content), target.Nodes[ndx].ContentTrim())
 				if err != nil {
 					return nil, nil, fmt.Errorf("error reading key '%s' from %s. %w", kmeta.Ident(), r.Path, err)
 				}
@@ -126,24 +128,48 @@ func (x *XmlNode) ContentTrim() string {
 	return strings.TrimSpace(string(x.Content))
 }
 
-func (x *XmlNode) field(m meta.Leafable) (string, bool) {
-	if ndx := x.Find(0, m); ndx >= 0 {
-		return x.Nodes[ndx].leafContent(m), true
+// white space is part of a string value and insignificant for everything else
+const (
+	xmlSpaceInsignificant = iota
+	xmlSpaceSignificant
+	xmlSpaceDepends // union with a string member: significant if the value ends up being the string
+)
+
+func xmlSpace(t *meta.Type) int {
+	if t == nil {
+		return xmlSpaceInsignificant
 	}
-	return "", false
+	switch t.Format().Single() {
+	case val.FmtString:
+		return xmlSpaceSignificant
+	case val.FmtLeafRef:
+		if target := t.Resolve(); target != nil && target != t {
+			return xmlSpace(target)
+		}
+	case val.FmtUnion:
+		for _, member := range t.Union() {
+			if xmlSpace(member) != xmlSpaceInsignificant {
+				return xmlSpaceDepends
+			}
+		}
+	}
+	return xmlSpaceInsignificant
 }
 
-// leafContent is the text of a leaf element. White space is part of a string value
-// and insignificant for everything else.
-func (x *XmlNode) leafContent(m meta.Leafable) string {
-	t := m.Type()
-	if t != nil && t.Format().Single() == val.FmtLeafRef {
-		t = t.Resolve()
+// leafValue converts the text of leaf elements, raw and trimmed hold the same items with
+// and without surrounding white space
+func xmlLeafValue(t *meta.Type, raw interface{}, trimmed interface{}) (val.Value, error) {
+	switch xmlSpace(t) {
+	case xmlSpaceSignificant:
+		return node.NewValue(t, raw)
+	case xmlSpaceDepends:
+		v, err := node.NewValue(t, trimmed)
+		if err == nil && v != nil && v.Format().Single() == val.FmtString {
+			return node.NewValue(t, raw)
+		}
+		return v, err
 	}
-	if t != nil && t.Format().Single() == val.FmtString {
-		return string(x.Content)
-	}
-	return x.ContentTrim()
+	return node.NewValue(t, trimmed)
 }
 
 func (x *XmlNode) Field(r node.FieldRequest, hnd *node.ValueHandle) error {
@@ -153,17 +179,18 @@ func (x *XmlNode) Field(r node.FieldRequest, hnd *node.ValueHandle) error {
 		return nil
 	}
 	if _, isList := r.Meta.(*meta.LeafList); isList {
-		var found []string
+		var raw, trimmed []string
 		// 7.8.5.  XML Encoding Rules
 		// The XML elements representing list entries MAY be interleaved with elements
 		// for siblings of the list
 		for ndx >= 0 {
-			found = append(found, x.Nodes[ndx].leafContent(r.Meta))
+			raw = append(raw, string(x.Nodes[ndx].Content))
+			trimmed = append(trimmed, x.Nodes[ndx].ContentTrim())
 			ndx = x.Find(ndx+1, r.Meta)
 		}
-		hnd.Val, err = node.NewValue(r.Meta.Type(), found)
+		hnd.Val, err = xmlLeafValue(r.Meta.Type(), raw, trimmed)
 	} else {
-		hnd.Val, err = node.NewValue(r.Meta.Type(), x.Nodes[ndx].leafContent(r.Meta))
+		hnd.Val, err = xmlLeafValue(r.Meta.Type(), string(x.Nodes[ndx].Content), x.Nodes[ndx].ContentTrim())
 	}
 	return err
 }
